@@ -92,6 +92,9 @@ var c04Inputs = []string{
 	"func g(x) { x + 1 }; func f(x) { g(x) }; println(f(1)); func sw() { g(0); g = func(x) { x * 100 } }",
 	"sw(); println(f(1))",
 	"func two2() { verif_counter() }; func one1() { two2() }; func zero0() { one1() }; println(zero0(), zero0(), zero0())",
+	// functions with the same text and different names whose result depends on which one it is
+	"func sa() { self }; func sb() { self }; println(sa()); println(sb()); println(sa())",
+	"func na(x) { println(\"in\", self); x }; func nb(x) { println(\"in\", self); x }; println(na(1), nb(1), na(1))",
 	// large printed output of cached calls interleaved (the replayed bytes must be the call's own)
 	"func banner(ch) { println(ch * 6000); len(ch) }; banner(\"a\"); banner(\"b\"); banner(\"a\"); banner(\"b\")",
 	"func big2(ch) { print(ch * 5000); print(\"|\"); 1 }; println(big2(\"x\") + big2(\"y\") + big2(\"x\"))",
